@@ -282,7 +282,7 @@ PLAIN_GROUPS = {
 def conditions(tier):
     q = tier == 'quick'
     conds = []
-    T = 240 if q else 1200
+    T = 240 if q else 450
     LIGHT[0] = q
 
     def add(cid, fn, bounds, **params):
